@@ -129,3 +129,25 @@ Example flags_2 : flags [] = GOk []. Proof. run. Qed.
 (* text "hey" = "hey"; text nil = "" : unsafe.String over unsafe.SliceData *)
 Example text_1 : text [104; 101; 121] = GOk [104; 101; 121]. Proof. run. Qed.
 Example text_2 : text [] = GOk []. Proof. run. Qed.
+(* round 6 (t2/chan.go; go run transcript, channels of capacity 2):
+     cas(1,2) on word 1 = true, word 2; cas(1,3) = false, word 2
+     push 7 -> room 1; push 8 -> room 0, queue [7 8]; a third push would BLOCK (translated: panic)
+     offer {1 2}, offer {3 4} -> drops 0; offer {5 6} -> drops 1, buffer [{3 4} {5 6}]
+     pin nil = false; pin &ctr{4} = true, pointer kept
+   CompareAndSwap, blocking / non-blocking send, non-blocking receive, len / cap, open signalling
+   channel in a select, sync/atomic.Pointer, documentation-only named result *)
+Definition bx (w : Z) (q : list Z) (o : list tick) (d : Z) (c : option ctr) : box :=
+  mk_box w (mk_gchan q 2) (mk_gchan o 2) d c.
+Example cas_1 : box_cas (Some (bx 1 [] [] 0 None)) 1 2 = GOk (Some (bx 2 [] [] 0 None), true). Proof. run. Qed.
+Example cas_2 : box_cas (Some (bx 2 [] [] 0 None)) 1 3 = GOk (Some (bx 2 [] [] 0 None), false). Proof. run. Qed.
+Example push_1 : box_push (Some (bx 0 [] [] 0 None)) 7 = GOk (Some (bx 0 [7] [] 0 None), tt). Proof. run. Qed.
+Example push_2 : box_push (Some (bx 0 [7] [] 0 None)) 8 = GOk (Some (bx 0 [7; 8] [] 0 None), tt). Proof. run. Qed.
+Example push_3 : box_push (Some (bx 0 [7; 8] [] 0 None)) 9 = GPanic. Proof. run. Qed.
+Example room_1 : box_room (Some (bx 0 [7] [] 0 None)) = GOk 1. Proof. run. Qed.
+Example room_2 : box_room (Some (bx 0 [7; 8] [] 0 None)) = GOk 0. Proof. run. Qed.
+Example offer_1 : box_offer (Some (bx 0 [] [mk_tick 1 2] 0 None)) (mk_tick 3 4)
+  = GOk (Some (bx 0 [] [mk_tick 1 2; mk_tick 3 4] 0 None), tt). Proof. run. Qed.
+Example offer_2 : box_offer (Some (bx 0 [] [mk_tick 1 2; mk_tick 3 4] 0 None)) (mk_tick 5 6)
+  = GOk (Some (bx 0 [] [mk_tick 3 4; mk_tick 5 6] 1 None), tt). Proof. run. Qed.
+Example pin_1 : box_pin (Some (bx 0 [] [] 0 (Some (mk_ctr 1)))) None = GOk (Some (bx 0 [] [] 0 None), false). Proof. run. Qed.
+Example pin_2 : box_pin (Some (bx 0 [] [] 0 None)) (Some (mk_ctr 4)) = GOk (Some (bx 0 [] [] 0 (Some (mk_ctr 4))), true). Proof. run. Qed.
